@@ -744,8 +744,10 @@ def judge_exc(ctx, c, rep):
 
 # ---------------------------------------------------------------- avg
 
-def gen_avg(rng):
-    T, F, B = rng.randint(1, 6), rng.randint(1, 6), rng.choice([1, 1, 2, 3])
+def gen_avg(rng, big=False):
+    T, F, B = rng.randint(1, 8), rng.randint(1, 8), rng.choice([1, 1, 2, 3])
+    if big:
+        T, F, B = rng.randint(1, 3), rng.randint(1, 3), rng.choice([127, 129, 130, 257])   # crosses bl_step = 128
     n = T * F * B
     dens = rng.choice([0.0, 0.2, 0.5, 0.8, 1.0])
     flags = [rng.random() < dens for _ in range(n)]
@@ -756,7 +758,8 @@ def gen_avg(rng):
     im = [rng.randint(-32, 32) / 4 for _ in range(n)]
     w = [rng.choice([0.0, 0.25, 0.5, 1.0, 2.0, 3.0, 7.5]) for _ in range(n)]
     return dict(kind='avg', T=T, F=F, B=B, re=re, im=im, w=w, flags=flags,
-                timeav=rng.randint(1, 8), chanav=rng.randint(1, 8), flagav=rng.random() < 0.5)
+                timeav=rng.choice([1, 2, 2, 3, 3, 4, 5, rng.randint(1, 10)]),
+                chanav=rng.choice([1, 2, 2, 3, 3, 4, 5, rng.randint(1, 10)]), flagav=rng.random() < 0.5)
 
 
 def lines_avg(c):
@@ -815,6 +818,11 @@ def judge_avg(ctx, c, rep_spec, rep_mirror):
         allflag = sfl if not c['flagav'] else None
         if allflag is not None and allflag.any():
             ctx.tag('avg-all-flagged-bin')
+    if c['chanav'] > F and not ctx.extra.get('averager_note'):
+        ctx.extra['averager_note'] = ('average_visibilities clamps timeav to the number of dumps but not chanav to the '
+                                      'number of channels (averager.py:139 clamps flagav instead, with no observable '
+                                      'effect): chanav > n_chans leaves zero channel bins.  The property promises '
+                                      'nothing about factors larger than the axis; modelled as coded, not a finding.')
     if rep_mirror != rep_spec:
         msh, mre, mim, mw, mfl = parse_av(rep_mirror)
         if msh != sshape or len(mismatch(mre, sre, 1e-12)) or len(mismatch(mw, sw, 1e-12)) or not np.array_equal(mfl, sfl):
@@ -1027,6 +1035,7 @@ def run(ctx):
         plan = [(k, n * 4) for k, n in plan]
     for kind, n in plan:
         cases += [KINDS[kind][0](rng) for _ in range(n)]
+    cases += [gen_avg(rng, big=True) for _ in range(ctx.q(2, 30))]
     # at least two Van Vleck reconstructions per run
     cases += [gen_vfw(rng, vv=True) for _ in range(ctx.q(2, 30))]
     bad = evaluate(ctx, cases)
